@@ -292,6 +292,10 @@ def check_c02(chk, rng):
     chk.notes["runs_with_cycles_at_withdrawn_times"] = stale
     for c in cases[:2]:
         chk.sample({"scenario": c.scn.splitlines(), "predicted_cycles": c.pred["cycles"]})
+    # schedule tables of every live graph at the end of every root cycle (SlotTrace.tla): the root's cached next time
+    # covers every pending entry, the next cycle comes no later than it
+    import slotcheck
+    slotcheck.run(chk, "C02", rng, 100 if chk.tier == "quick" else 2000, ("C02.",))
     chk.coverage["rule"] = ("random programs rich in wake-ups (scripted sources scheduling one-at-a-time or all at start, timers, "
                             "tagged delays that replace their pending time, inside nested children at depth 1-2), start in {1,2,3}, end before / "
                             "after the last request; distinct = distinct scenario text")
@@ -760,6 +764,8 @@ def check_c13(chk, rng):
 
 # ------------------------------------------------------------------------------------------------ C09
 def check_c09(chk, rng):
+    import slotcheck
+    model = slotcheck.model_start(chk.tier == "quick")
     n = 200 if chk.tier == "quick" else 3000
     fam = rand_family(rng, n, 1, chk, "rand", max_nodes=7, horizon=7,
                       kinds=("pass", "add", "acc", "count", "delay", "echo", "echo", "sum2", "sumu", "sample", "sample2", "sampleu", "lsum", "lsumv"))
@@ -823,6 +829,10 @@ def check_c09(chk, rng):
                 chk.violation("inline-vs-%s" % c.what, "the same sub-graph gives different streams inlined and %s: %s" % (c.what, diff),
                               replay_text(c, "differs from inlined"))
         # both equal but different from the spec: not C09's business (C03 decides) - noted only
+    # the mechanism below the streams: NestedSched.tla (delegation protocol, exhaustive + named faults) bound to the real
+    # schedule tables by SlotTrace.tla
+    slotcheck.run(chk, "C09", rng, 150 if chk.tier == "quick" else 2500, ("C09.",))
+    slotcheck.model_finish(chk, model)
     for c in cases[:3]:
         chk.sample({"scenario": c.scn.splitlines()})
     chk.coverage["rule"] = ("random programs; for up to 3 sub-ranges each (preferring ones with timers / delays / sources inside) the "
